@@ -61,6 +61,9 @@ func analyseTraversal(p *Program, fn *ssa.Function) *travInfo {
 			base[fmt.Sprint(cd.Truth)+t.String()] = true
 			if !cd.Truth {
 				ti.baseFalse = append(ti.baseFalse, t)
+			} else if t.Op == "!=" {
+				// `x != 0` holding is `x == 0` failing (De Morgan spelling of the base case, third benign round)
+				ti.baseFalse = append(ti.baseFalse, &Term{Op: "==", Args: t.Args})
 			}
 		}
 		for _, cd := range MustCondsAtBlock(fn, second.Block()) {
